@@ -1,13 +1,18 @@
 """C12 - reindex preserves overlapping periods and fills the rest, on a fresh object."""
+from contracts.c12_reindex import CONTRACTS as REINDEX_CONTRACTS
 from props.containers_bounded import Reindex
 from verif.spec import PropertySpec
 
 PROPERTY = PropertySpec(
-    id='C12', contracts=[], bounded=[Reindex()], level='exploration',
-    explanation='bounded: (old span, new span) pairs x fill lattice on containers and partly solved models',
-    level_text='bounded run-time contract (stand-in): value at every new position against the statement (old value / keyword / fill_value / dtype '
+    id='C12', contracts=list(REINDEX_CONTRACTS), bounded=[Reindex()], level='other',
+    explanation='VectorContainer.reindex executed symbolically from source for enumerated shapes (old span of 2 labels, new span of 0-3 labels, a float and an int '
+                'variable) with symbolic labels (repeats allowed in the new span, 0 allowed), data and fill values: every new position holds the old value of its '
+                'label if present, else the per-variable keyword / fill_value / dtype default; fresh arrays of the same dtype, new span, same order, original '
+                'unchanged, KeyError for unknown keywords only under strict. BaseModel.reindex proved to forward with status/iterations defaults that only an '
+                'explicit keyword (also a falsy one) replaces. Larger shapes, all dtypes, span types and the pandas mixin are bounded.',
+    level_text='proof obligations per enumerated shape (all labels, data and fills) + bounded run over span pairs and the fill lattice: value at every new position against the statement (old value / keyword / fill_value / dtype '
                'default / model defaults), dtypes, order, attributes, original unchanged and unshared',
     level_note='bound: old span of length 4, eight new-span shapes incl. repeated labels, eight fill settings, strict in {None, True, False}',
-    technique='contract-based verification: run-time contract of reindex, bounded enumeration',
+    technique='contract-based deductive verification per shape (pyvc + z3); bounded enumeration as stand-in for larger shapes',
     design_ref='DESIGN.md section 10 / C12',
 )
